@@ -51,6 +51,12 @@ def corpus(quick: bool) -> list[list[str]]:
     else:
         add(pgen.programs(KINDS_FULL, 3, depth=2))
         add(pgen.forests(KINDS_SUB4, 4, 2))
+    # block-lock contention (beyond the size bound): a Block opened by a Watch body has to wait for the main flow's Block,
+    # and the other way round
+    E, M, W = ("EB", ()), ("M", ()), ("W", ())
+    add([(("Wa", (("K", (M, E)),)), ("K", (W, W, W, E)), M),
+         (("Wa", (("K", (W, W, W, E)),)), W, ("K", (M, E)), M),
+         (("K", (("Wa", (("K", (M, E)),)), W, W, E)), M)])
     return out
 
 
